@@ -3,17 +3,17 @@ def kind_re(kinds):
     # the fault kind (with or without variant) as the single fault or as an ingredient of a shrunk multi-fault set
     alt="|".join(re.escape(k) for k in kinds)
     return r".*(?:\||\+|\|multi-fault:)(?:%s)(?::[a-z0-9-]+)*(?:\+[^|]+)?(?:\|.*)?" % alt
-P=r"(?:cli-|rec-|isl-)?"
+P=r"(?:cli-|rec-|isl-|rsrv-)?"
 FAMS=[
  ("C07-FAM1","F3", P+r".*", kind_re(["cross-zone-signature"]),
   "C07-F3 family (RRSIG signer name not tied to the zone of the RRset; ancestor signer names are accepted, RFC 4035 5.3.1): every violation whose shrunk fault set contains a cross-zone signature, at any observation point (validator, server AD/CD, DnssecClient, validating Recursor)"),
- ("C07-FAM2","F6", P+r"(?:false-denial|unauthenticated-denial|insecure-in-signed-zone|false-denial-served|served-forged-to-cd0)", kind_re(["replay-other","fake-insecure-delegation:replayed-nx-denial","fake-insecure-delegation:replayed-nx-denial-noerror","flip-rcode:toggle"])+r"|answer\|fake-insecure-delegation",
+ ("C07-FAM2","F6", P+r"(?:false-denial|unauthenticated-denial|insecure-in-signed-zone|false-denial-served|served-forged-to-cd0|bogus-denial-served|bogus-zone-data-served)", kind_re(["replay-other","fake-insecure-delegation:replayed-nx-denial","fake-insecure-delegation:replayed-nx-denial-noerror","flip-rcode:toggle"])+r"|answer\|fake-insecure-delegation",
   "C07-F6/F12 family (= C09-F1: NSEC3 wrap-around cover test inverted so the last NSEC3 of any chain covers every hash, apex NODATA arm, Opt-Out span accepted as name error): a replayed genuine denial / a toggled rcode is accepted as authenticated denial or as DS-absence proof; every denial-side or insecure-side violation whose shrunk fault set contains replay-other, fake-insecure-delegation:replayed-nx-denial(-noerror) or flip-rcode:toggle"),
  ("C07-FAM3","F7", P+r"(?:unauthenticated-denial|insecure-in-signed-zone|served-forged-to-cd0)", kind_re(["fake-cut","inject-forged"]),
   "C07-F7 family (zone cut located with unvalidated NS probes, unsigned records in a signed zone marked Insecure after the zone's own genuine NODATA proof for DS): every insecure-side violation whose shrunk fault set contains a fake cut or injected unsigned records"),
  ("C07-FAM4","F10", P+r"(?:unauthenticated-denial|false-denial|false-denial-served|served-forged-to-cd0)", r"irrelevant-answer\|.*|"+kind_re(["alter-bit:data","drop:data","replace-genuine:data:foreign-owner","alter-bit","drop","replace-genuine"]).replace("(?::[a-z0-9-]+)*","",1) ,
   "C07-F10 family (the validator never checks that a response answers the question): an answer section left without the data asked for (record dropped, owner/rdata altered, foreign records) is returned as 'no data' instead of an error; every denial-side violation with outcome irrelevant-answer, or whose shrunk fault set alters/drops/replaces the answer's data record"),
- ("C07-FAM5","F11d", P+r"secure-not-genuine", r"dnskey:not-in-zone-data\|.*",
+ ("C07-FAM5","F11d", P+r"(?:secure-not-genuine|served-forged-to-cd0)", r"dnskey:not-in-zone-data\|.*|answer\|replace-genuine:dnskey:rdata",
   "C07-F11d family (a DNSKEY RRset is accepted without a valid RRSIG when every key in it matches a DS / the anchor; anchors matched by key bytes regardless of owner): a key set that is not the zone's (keys dropped, altered, planted) is Secure"),
 ]
 if __name__=="__main__":
